@@ -42,6 +42,9 @@ pub struct Script {
     pub panic_at: Vec<(usize, u64)>,
     /// every decoder panics at its first frame
     pub panic_all: bool,
+    /// every decode call that starts after the given global frame number waits until a common deadline
+    /// (all workers stall at once for the given number of milliseconds, then continue)
+    pub stall: Option<(u64, u64)>,
 }
 
 pub struct Shared {
@@ -54,6 +57,8 @@ pub struct Shared {
     pub in_decode: AtomicUsize,
     pub last_begin_ns: AtomicU64,
     pub t0: Instant,
+    /// deadline (ns since t0) of the common stall, 0 = not started
+    pub stall_deadline_ns: AtomicU64,
 }
 
 impl Shared {
@@ -119,6 +124,17 @@ impl LdpcDecoder for ScriptDecoder {
             panic!("scripted decoder panic (failure injection)");
         }
         let u = sh.counter.fetch_add(1, Ordering::SeqCst);
+        if let Some((at, ms)) = sh.script.stall {
+            if u >= at {
+                // the first worker to get here fixes the common deadline; everybody who arrives before it waits
+                let _ = sh.stall_deadline_ns.compare_exchange(0, sh.now() + ms * 1_000_000, Ordering::SeqCst, Ordering::SeqCst);
+                let dl = sh.stall_deadline_ns.load(Ordering::SeqCst);
+                let now = sh.now();
+                if now < dl {
+                    std::thread::sleep(Duration::from_nanos(dl - now));
+                }
+            }
+        }
         let (e, success, code) = script_of(&sh.script, u, sh.k);
         let mut word: Vec<u8> = llrs.iter().map(|&x| (x <= 0.0) as u8).collect();
         debug_assert_eq!(word.len(), self.n);
@@ -261,6 +277,7 @@ pub fn run_scenario(p: &Params) -> Outcome {
         in_decode: AtomicUsize::new(0),
         last_begin_ns: AtomicU64::new(0),
         t0: Instant::now(),
+        stall_deadline_ns: AtomicU64::new(0),
     });
     let (rtx, rrx) = mpsc::channel::<Report>();
     let reporter = Reporter { tx: rtx, interval: Duration::ZERO };
@@ -749,6 +766,7 @@ fn base_script(rng: &mut Rng, k: usize) -> Script {
         delays: rng.chance(0.7),
         panic_at: vec![],
         panic_all: false,
+        stall: None,
     }
 }
 
@@ -831,7 +849,7 @@ fn judge(l: &mut Local, p: &Params, o: &Outcome, expect: &str) {
 }
 
 pub fn run(run: &mut Run) {
-    run.rule = "the real BerTest engine driven through the public DecoderFactory with a scripted decoder (unique 44-bit iteration code per frame, scripted bit errors on the systematic part, success flag, heavy-tailed delays before returning) at Eb/N0 = 60 dB and a zero-interval Reporter; offline checker: successive report differences identify the consumed frames through their unique codes (multi-frame steps resolved by search over the workers' next unconsumed frames); required: no invention, no duplication, per-worker FIFO, every counter = sum over the consumed set (frames, systematic bit errors, frame errors, false decodes, total and correct-frame iterations, outer-code threshold accounting), ratios = stated ratios, stop exactly at the error target by a frame that incremented it, returned vector = last report of each point in order, exactly one 'finished' at the end, all decoders dropped and no decode begun after run() returned; worker count 1..16 through sched_setaffinity around BerTest::new in three modes (restored / W cpus / one cpu); failure injection: puncturing not dividing n, interleaver columns or 8PSK not fitting (stage panics in every worker), decoder panics in some / all workers; non-trivial = a run with >= 2 workers whose consumption order is not sorted by worker id (distinct by digest of the consumed worker-id sequence), and every failure-injection scenario".into();
+    run.rule = "the real BerTest engine driven through the public DecoderFactory with a scripted decoder (unique 44-bit iteration code per frame, scripted bit errors on the systematic part, success flag, heavy-tailed delays before returning) at Eb/N0 = 60 dB and a zero-interval Reporter; offline checker: successive report differences identify the consumed frames through their unique codes (multi-frame steps resolved by search over the workers' next unconsumed frames); required: no invention, no duplication, per-worker FIFO, every counter = sum over the consumed set (frames, systematic bit errors, frame errors, false decodes, total and correct-frame iterations, outer-code threshold accounting), ratios = stated ratios, stop exactly at the error target by a frame that incremented it, returned vector = last report of each point in order, exactly one 'finished' at the end, all decoders dropped and no decode begun after run() returned; worker count 1..16 through sched_setaffinity around BerTest::new in three modes (restored / W cpus / one cpu); failure injection: puncturing not dividing n, interleaver columns or 8PSK not fitting (stage panics in every worker), decoder panics in some / all workers; all workers stalling simultaneously for 6.5 s (2.5 .. 35 s in thorough) in the middle of a point; non-trivial = a run with >= 2 workers whose consumption order is not sorted by worker id (distinct by digest of the consumed worker-id sequence), and every failure-injection scenario".into();
     run.assumptions = vec![
         "a propagated panic out of run() counts as terminated in the partial-failure scenario (decoder panics in some workers)".into(),
         "wall-clock watchdog of 60 s per scenario only bounds how long we look; scenarios take milliseconds".into(),
@@ -906,6 +924,40 @@ pub fn run(run: &mut Run) {
             let _ = idx;
             let o = run_scenario(&p);
             judge(l, &p, &o, "ok");
+        });
+    }
+    // no result for several seconds: every worker stalls at the same time, then all continue; the point must
+    // still run until the error target is met (a collector that gives up waiting would stop early)
+    if !miri {
+        let stall_ms: Vec<u64> = if run.tier == crate::ctx::Tier::Thorough { vec![2500, 7000, 12_000, 35_000] } else { vec![6500] };
+        run.sub_seq("all-workers-stall", stall_ms.len() as u64, move |l, idx, rng| {
+            if HUNG.load(Ordering::SeqCst) {
+                return;
+            }
+            let h = small_h(rng);
+            let k = h.cols - h.rows;
+            let mut script = base_script(rng, k);
+            script.p_err = 1.0;
+            script.delays = false;
+            script.stall = Some((rng.range(5, 40) as u64, stall_ms[idx as usize]));
+            let p = Params {
+                workers: 2 + rng.below(6),
+                affinity_mode: 0,
+                target: 200,
+                bch: 0,
+                ebn0s: vec![60.0],
+                script,
+                puncture: None,
+                interleave: None,
+                psk8: false,
+                kind: "normal (all workers stall for seconds)",
+                h,
+            };
+            let o = run_scenario(&p);
+            judge(l, &p, &o, "ok");
+            let mut d = Dig::new();
+            d.s("stall").u(idx);
+            l.nt(d.get());
         });
     }
     let nf = if miri { 2 } else { run.tier.n(96, 1600) };
